@@ -10,7 +10,7 @@ MCEmpty == <<>>
 MCNoHttpCfg == { [auth |-> TRUE, pprof |-> FALSE] }
 MCHttpNames == <<"api", "database", "t", "x", "write", "ping", "preview", "debug", "vars", "u", "s", "a", "b", "d_clean", "e_clean", "d_e_dirty">>
 MCHttpGrant == << <<>>, <<"api">>, <<"api", "t">>, <<"api", "t", "x">>, <<"api", "write">>, <<"api", "preview">>,
-                  <<"api", "s">>, <<"database">>, <<"database", "d_clean">> >>
+                  <<"api", "s">>, <<"api", "s", "a">>, <<"database">>, <<"database", "d_clean">> >>
 MCHttpCfgs == { [auth |-> TRUE, pprof |-> FALSE], [auth |-> TRUE, pprof |-> TRUE], [auth |-> FALSE, pprof |-> FALSE] }
 MCHttpMethods == <<"GET", "POST", "PATCH", "PUT", "DELETE", "HEAD", "OPTIONS", "TRACE", "get">>
 MCHttpPaths == <<
@@ -33,7 +33,8 @@ MCHttpPaths == <<
     <<"kapacitor", "v1", "s", "a", "">>,
     <<"kapacitor", "v1", "s", "">>,
     <<"kapacitor", "v1", "s">>,
-    <<"kapacitor", "v1", "s", "a", "..", "b">> >>
+    <<"kapacitor", "v1", "s", "a", "..", "b">>,
+    <<"kapacitor", "v1", "s", "b">> >>
 MCHttpCreds == <<"none", "basic_ok", "basic_badpw", "basic_nouser", "basic_emptyuser", "basic_admin",
                  "query_ok", "query_badpw", "query_nopw", "badbasic_query_ok",
                  "bearer_ok", "bearer_admin", "bearer_badsig", "bearer_noexp", "bearer_expired", "bearer_nouser",
